@@ -185,3 +185,399 @@ Proof.
   - inversion Hpx as [|? ? Hv Hpx']; subst. apply IH; [|exact Hpx'].
     intros k. unfold upd. destruct (k =? base); [exact Hv | apply Hm].
 Qed.
+
+(* ------------------------------------------------------------------------------------------------ *)
+(* (3) one interlaced row                                                                            *)
+
+Lemma mask_assoc bits : sub_bits bits -> assocz bits subbyte_mask_table = Some (Z.ones bits).
+Proof. intros [-> | [-> | ->]]; reflexivity. Qed.
+
+Lemma subbyte_pixel_range row bits i : sub_bits bits -> 0 <= subbyte_pixel row bits i < 2 ^ bits.
+Proof.
+  intros Hb. pose proof (sub_bits_pos bits Hb) as Hp.
+  unfold subbyte_pixel. rewrite (mask_assoc bits Hb). rewrite Z.land_ones by lia.
+  apply Z.mod_pos_bound. apply Z.pow_pos_nonneg; lia.
+Qed.
+
+(* bit j (from the left) of sub-byte pixel i is bit i*bits+j of the row *)
+Lemma subbyte_pixel_bit row bits i j :
+  sub_bits bits -> 0 <= j < bits ->
+  Z.testbit (subbyte_pixel row bits i) (bits - 1 - j) = get_bit row (i * bits + j).
+Proof.
+  intros Hb Hj. unfold subbyte_pixel, get_bit. rewrite (mask_assoc bits Hb).
+  rewrite Z.land_ones by lia. rewrite Z.mod_pow2_bits_low by lia. rewrite Z.shiftr_spec by lia.
+  assert (E1 : (i * bits + j) / 8 = i * bits / 8) by (destruct Hb as [-> | [-> | ->]]; dlia).
+  assert (E2 : bits - 1 - j + (8 - (i * bits) mod 8 - bits) = 7 - (i * bits + j) mod 8)
+    by (destruct Hb as [-> | [-> | ->]]; dlia).
+  rewrite E1, E2. reflexivity.
+Qed.
+
+Lemma zseq_from_length : forall n s, length (zseq_from s n) = n.
+Proof. induction n as [|n IH]; intros s; cbn [zseq_from length]; [reflexivity | rewrite IH; reflexivity]. Qed.
+
+Lemma nth_map_zseq_from (f : Z -> Z) : forall n s t,
+  (t < n)%nat -> nth t (map f (zseq_from s n)) 0 = f (s + Z.of_nat t).
+Proof.
+  induction n as [|n IH]; intros s t Ht; [lia|].
+  cbn [zseq_from map]. destruct t as [|t]; cbn [nth].
+  - f_equal. lia.
+  - rewrite IH by lia. f_equal. lia.
+Qed.
+
+Lemma row_pixel_bytes_zlen row b i : 0 <= b -> zlen (row_pixel_bytes row b i) = b.
+Proof.
+  intros Hb. unfold zlen, row_pixel_bytes, zseq. rewrite map_length, zseq_from_length. lia.
+Qed.
+
+Lemma row_pixel_bytes_nth row b i t :
+  0 <= t < b -> nth (Z.to_nat t) (row_pixel_bytes row b i) 0 = row (i * b + t).
+Proof.
+  intros Ht. unfold row_pixel_bytes, zseq. rewrite nth_map_zseq_from by lia. f_equal. lia.
+Qed.
+
+Lemma row_pixel_bytes_ok row b i : img_bytes row -> Forall byte_ok (row_pixel_bytes row b i).
+Proof.
+  intros Hr. apply Forall_forall. intros v Hv. unfold row_pixel_bytes in Hv.
+  apply in_map_iff in Hv as (k & <- & _). apply Hr.
+Qed.
+
+Lemma bit_pos_eq stride p line i bits lm lo sm so :
+  assocz p expand_table = Some (lm, lo, sm, so) ->
+  bit_pos stride p line i bits = Some ((i * sm + so) * bits + (lm * line + lo) * stride * 8).
+Proof. intros H. unfold bit_pos, pos_xy. rewrite H. reflexivity. Qed.
+
+(* both loops of expand_pass are instances of one iteration scheme *)
+Fixpoint row_gen (step : img -> Z -> img) (m : img) (i : Z) (n : nat) : img :=
+  match n with
+  | O => m
+  | S n' => row_gen step (step m i) (i + 1) n'
+  end.
+
+Lemma expand_row_sub_gen stride p line bits row lm lo sm so :
+  assocz p expand_table = Some (lm, lo, sm, so) ->
+  forall n m i, expand_row_sub m stride p line bits row i n =
+    Some (row_gen (fun m i => store_sub m ((i * sm + so) * bits + (lm * line + lo) * stride * 8)
+                                        (subbyte_pixel row bits i) bits) m i n).
+Proof.
+  intros He. induction n as [|n IH]; intros m i; cbn [expand_row_sub row_gen]; [reflexivity|].
+  rewrite (bit_pos_eq stride p line i bits lm lo sm so He). apply IH.
+Qed.
+
+Lemma expand_row_bytes_gen stride p line bits row lm lo sm so :
+  assocz p expand_table = Some (lm, lo, sm, so) ->
+  forall n m i, expand_row_bytes m stride p line bits row i n =
+    Some (row_gen (fun m i => store_bytes m (((i * sm + so) * bits + (lm * line + lo) * stride * 8) / 8)
+                                          (row_pixel_bytes row (bits / 8) i)) m i n).
+Proof.
+  intros He. induction n as [|n IH]; intros m i; cbn [expand_row_bytes row_gen]; [reflexivity|].
+  rewrite (bit_pos_eq stride p line i bits lm lo sm so He). apply IH.
+Qed.
+
+(* [step m i] overwrites exactly the field [P i, P i + bits) with bits [i*bits, i*bits+bits) of the row *)
+Definition writes_field (P : Z -> Z) (bits : Z) (row : img) (step : img -> Z -> img) : Prop :=
+  forall m i, 0 <= i -> img_bytes m ->
+    img_bytes (step m i) /\
+    forall q, 0 <= q ->
+      get_bit (step m i) q =
+      if (P i <=? q) && (q <? P i + bits) then get_bit row (i * bits + (q - P i)) else get_bit m q.
+
+Lemma row_gen_spec P bits row step :
+  0 < bits -> (forall k, 0 <= k -> 0 <= P k) -> (forall k k', 0 <= k < k' -> P k + bits <= P k') ->
+  writes_field P bits row step ->
+  forall n m i, 0 <= i -> img_bytes m ->
+    img_bytes (row_gen step m i n) /\
+    (forall k, i <= k < i + Z.of_nat n -> forall j, 0 <= j < bits ->
+       get_bit (row_gen step m i n) (P k + j) = get_bit row (k * bits + j)) /\
+    (forall q, 0 <= q -> (forall k, i <= k < i + Z.of_nat n -> ~ (P k <= q < P k + bits)) ->
+       get_bit (row_gen step m i n) q = get_bit m q).
+Proof.
+  intros Hbits HP0 Hmono Hstep. induction n as [|n IH]; intros m i Hi Hm; cbn [row_gen].
+  - split; [exact Hm|]. split; [intros; lia | reflexivity].
+  - destruct (Hstep m i Hi Hm) as [Hm1 Hg].
+    assert (Hi1 : 0 <= i + 1) by lia.
+    destruct (IH (step m i) (i + 1) Hi1 Hm1) as (Hm' & Ha & Hb).
+    split; [exact Hm'|]. split.
+    + intros k Hk j Hj. destruct (Z.eq_dec k i) as [-> | Hne].
+      * pose proof (HP0 i Hi) as HPi.
+        rewrite Hb.
+        -- rewrite Hg by lia.
+           assert (Ec : (P i <=? P i + j) && (P i + j <? P i + bits) = true) by lia.
+           rewrite Ec. f_equal. lia.
+        -- lia.
+        -- intros k Hk'. assert (Hik : 0 <= i < k) by lia. specialize (Hmono i k Hik). lia.
+      * apply Ha; lia.
+    + intros q Hq Hout. rewrite Hb; [| exact Hq | intros k Hk; apply Hout; lia].
+      rewrite Hg by exact Hq.
+      assert (Hii : i <= i < i + Z.of_nat (S n)) by lia. specialize (Hout i Hii).
+      assert (Ec : (P i <=? q) && (q <? P i + bits) = false) by lia.
+      rewrite Ec. reflexivity.
+Qed.
+
+Lemma mul_step x x' b : 0 <= b -> x + 1 <= x' -> x * b + b <= x' * b.
+Proof. intros Hb Hx. nia. Qed.
+
+Lemma sub_step_writes stride bits row sm so Y :
+  sub_bits bits -> 0 <= sm -> 0 <= so -> 0 <= Y -> 0 <= stride ->
+  writes_field (fun i => (i * sm + so) * bits + Y * stride * 8) bits row
+    (fun m i => store_sub m ((i * sm + so) * bits + Y * stride * 8) (subbyte_pixel row bits i) bits).
+Proof.
+  intros Hb Hsm Hso HY Hst m i Hi Hm. cbv beta.
+  pose proof (sub_bits_pos bits Hb) as Hbp.
+  set (pos := (i * sm + so) * bits + Y * stride * 8).
+  assert (Hpos : 0 <= pos) by (subst pos; nia).
+  assert (Hal : pos mod bits = 0).
+  { subst pos. destruct Hb as [-> | [-> | ->]]; dlia. }
+  pose proof (subbyte_pixel_range row bits i Hb) as Hpx.
+  split.
+  - apply store_sub_img_bytes; assumption.
+  - intros q Hq. rewrite store_sub_bits by assumption.
+    destruct ((pos <=? q) && (q <? pos + bits)) eqn:E; [|reflexivity].
+    apply subbyte_pixel_bit; [exact Hb | lia].
+Qed.
+
+Lemma byte_step_writes stride bits row sm so Y :
+  byte_bits bits -> img_bytes row -> 0 <= sm -> 0 <= so -> 0 <= Y -> 0 <= stride ->
+  writes_field (fun i => (i * sm + so) * bits + Y * stride * 8) bits row
+    (fun m i => store_bytes m (((i * sm + so) * bits + Y * stride * 8) / 8) (row_pixel_bytes row (bits / 8) i)).
+Proof.
+  intros Hb Hrow Hsm Hso HY Hst m i Hi Hm. cbv beta.
+  apply byte_bits_mul8 in Hb as [Hb8 Hbm].
+  set (b := bits / 8).
+  assert (Eb : bits = 8 * b) by (subst b; dlia).
+  assert (Hbpos : 1 <= b) by lia.
+  clearbody b.
+  set (pos := (i * sm + so) * bits + Y * stride * 8).
+  assert (Hpos : 0 <= pos) by (subst pos; nia).
+  assert (Hal : pos mod 8 = 0).
+  { subst pos. rewrite Eb. replace ((i * sm + so) * (8 * b) + Y * stride * 8) with (((i * sm + so) * b + Y * stride) * 8) by ring.
+    apply Z.mod_mul. lia. }
+  split.
+  - apply store_bytes_img_bytes; [exact Hm | apply row_pixel_bytes_ok; exact Hrow].
+  - intros q Hq. rewrite store_bytes_bits by assumption.
+    rewrite row_pixel_bytes_zlen by lia. rewrite <- Eb.
+    destruct ((pos <=? q) && (q <? pos + bits)) eqn:E; [|reflexivity].
+    assert (Hd : 0 <= q - pos < 8 * b) by lia.
+    generalize dependent (q - pos). intros d Hd.
+    rewrite row_pixel_bytes_nth by dlia.
+    unfold get_bit. rewrite Eb.
+    assert (E1 : (i * (8 * b) + d) / 8 = i * b + d / 8) by dlia.
+    assert (E2 : (i * (8 * b) + d) mod 8 = d mod 8) by dlia.
+    rewrite E1, E2. reflexivity.
+Qed.
+
+Theorem expand_row_correct m stride p line width bits row lm lo sm so :
+  In p passes -> 0 <= line -> 0 <= width -> 0 <= stride -> img_bytes m -> img_bytes row -> legal_bits bits ->
+  assocz p expand_table = Some (lm, lo, sm, so) ->
+  let pos := fun i => (i * sm + so) * bits + (lm * line + lo) * stride * 8 in
+  exists m', expand_pass_model m stride p line width bits row = Some m' /\
+    (forall i, 0 <= i < width -> forall j, 0 <= j < bits ->
+       get_bit m' (pos i + j) = get_bit row (i * bits + j)) /\
+    (forall q, 0 <= q -> (forall i, 0 <= i < width -> ~ (pos i <= q < pos i + bits)) ->
+       get_bit m' q = get_bit m q) /\
+    img_bytes m'.
+Proof.
+  intros Hp Hline Hwidth Hstride Hm Hrow Hbits He pos.
+  destruct (expand_total p Hp) as (lm' & lo' & sm' & so' & He' & Hsm & Hlm & Hso & Hlo).
+  rewrite He in He'. inversion He'; subst lm' lo' sm' so'. clear He'.
+  pose proof (legal_bits_pos bits Hbits) as Hbp.
+  assert (HY : 0 <= lm * line + lo) by nia.
+  assert (HP0 : forall k, 0 <= k -> 0 <= pos k) by (intros k Hk; subst pos; cbv beta; nia).
+  assert (Hmono : forall k k', 0 <= k < k' -> pos k + bits <= pos k').
+  { intros k k' Hk. subst pos. cbv beta.
+    assert (Hx : (k * sm + so) + 1 <= k' * sm + so) by nia.
+    pose proof (mul_step (k * sm + so) (k' * sm + so) bits ltac:(lia) Hx). lia. }
+  assert (Hn : Z.of_nat (Z.to_nat width) = width) by lia.
+  assert (H00 : 0 <= 0) by lia.
+  unfold expand_pass_model.
+  destruct Hbits as [Hb | Hb].
+  - assert (Elt : (bits <? 8) = true) by (apply sub_bits_pos in Hb; lia). rewrite Elt.
+    rewrite (expand_row_sub_gen stride p line bits row lm lo sm so He).
+    eexists. split; [reflexivity|].
+    pose proof (sub_step_writes stride bits row sm so (lm * line + lo) Hb ltac:(lia) ltac:(lia) HY Hstride) as Hw.
+    destruct (row_gen_spec pos bits row _ Hbp HP0 Hmono Hw (Z.to_nat width) m 0 H00 Hm) as (Hm' & Ha & Hbb).
+    rewrite Hn in Ha, Hbb.
+    split; [|split]; [ intros i Hi j Hj; apply Ha; lia | intros q Hq Hout; apply Hbb; [exact Hq | intros k Hk; apply Hout; lia] | exact Hm' ].
+  - assert (Elt : (bits <? 8) = false) by (apply byte_bits_mul8 in Hb; lia). rewrite Elt.
+    rewrite (expand_row_bytes_gen stride p line bits row lm lo sm so He).
+    eexists. split; [reflexivity|].
+    pose proof (byte_step_writes stride bits row sm so (lm * line + lo) Hb Hrow ltac:(lia) ltac:(lia) HY Hstride) as Hw.
+    destruct (row_gen_spec pos bits row _ Hbp HP0 Hmono Hw (Z.to_nat width) m 0 H00 Hm) as (Hm' & Ha & Hbb).
+    rewrite Hn in Ha, Hbb.
+    split; [|split]; [ intros i Hi j Hj; apply Ha; lia | intros q Hq Hout; apply Hbb; [exact Hq | intros k Hk; apply Hout; lia] | exact Hm' ].
+Qed.
+
+(* the form asked for: whenever the model returns an image, it is the right one (and it always does) *)
+Corollary expand_row_correct_some m stride p line width bits row lm lo sm so m' :
+  In p passes -> 0 <= line -> 0 <= width -> 0 <= stride -> img_bytes m -> img_bytes row -> legal_bits bits ->
+  assocz p expand_table = Some (lm, lo, sm, so) ->
+  expand_pass_model m stride p line width bits row = Some m' ->
+  let pos := fun i => (i * sm + so) * bits + (lm * line + lo) * stride * 8 in
+  (forall i, 0 <= i < width -> forall j, 0 <= j < bits ->
+     get_bit m' (pos i + j) = get_bit row (i * bits + j)) /\
+  (forall q, 0 <= q -> (forall i, 0 <= i < width -> ~ (pos i <= q < pos i + bits)) ->
+     get_bit m' q = get_bit m q) /\
+  img_bytes m'.
+Proof.
+  intros Hp Hline Hwidth Hstride Hm Hrow Hbits He Hrun pos.
+  destruct (expand_row_correct m stride p line width bits row lm lo sm so Hp Hline Hwidth Hstride Hm Hrow Hbits He)
+    as (m'' & Hrun' & H).
+  rewrite Hrun in Hrun'. inversion Hrun'; subst m''. exact H.
+Qed.
+
+Corollary expand_row_total m stride p line width bits row :
+  In p passes -> 0 <= line -> 0 <= width -> 0 <= stride -> img_bytes m -> img_bytes row -> legal_bits bits ->
+  expand_pass_model m stride p line width bits row <> None.
+Proof.
+  intros Hp Hline Hwidth Hstride Hm Hrow Hbits.
+  destruct (expand_total p Hp) as (lm & lo & sm & so & He & _).
+  destruct (expand_row_correct m stride p line width bits row lm lo sm so Hp Hline Hwidth Hstride Hm Hrow Hbits He)
+    as (m' & Hrun & _).
+  rewrite Hrun. discriminate.
+Qed.
+
+(* ------------------------------------------------------------------------------------------------ *)
+(* (4) the whole image, rows in any order                                                            *)
+
+Fixpoint expand_all (m : img) (stride bits : Z) (rowf : Z -> Z -> Z -> Z) (ord : list (Z * Z * Z)) : option img :=
+  match ord with
+  | [] => Some m
+  | (p, l, lw) :: ord' =>
+    match expand_pass_model m stride p l lw bits (rowf p l) with
+    | Some m1 => expand_all m1 stride bits rowf ord'
+    | None => None
+    end
+  end.
+
+(* the fields of two distinct pixels of an image whose rows fit the stride are disjoint *)
+Lemma fields_disjoint w stride bits x y x' y' q :
+  0 < bits -> w * bits <= stride * 8 -> 0 <= x < w -> 0 <= x' < w -> 0 <= y -> 0 <= y' ->
+  (x = x' -> y = y' -> False) ->
+  x * bits + y * stride * 8 <= q < x * bits + y * stride * 8 + bits ->
+  x' * bits + y' * stride * 8 <= q < x' * bits + y' * stride * 8 + bits -> False.
+Proof.
+  intros Hb Hfit Hx Hx' Hy Hy' Hne H1 H2.
+  assert (Hbn : 0 <= bits) by lia.
+  assert (HS : 0 <= stride * 8) by nia.
+  pose proof (mul_step x w bits Hbn ltac:(lia)) as Fx.
+  pose proof (mul_step x' w bits Hbn ltac:(lia)) as Fx'.
+  assert (X0 : 0 <= x * bits) by nia.
+  assert (X0' : 0 <= x' * bits) by nia.
+  destruct (Z.lt_trichotomy y y') as [Hlt | [Heq | Hgt]].
+  - pose proof (mul_step y y' (stride * 8) HS ltac:(lia)). lia.
+  - subst y'. destruct (Z.lt_trichotomy x x') as [Hlt | [Heq | Hgt]].
+    + pose proof (mul_step x x' bits Hbn ltac:(lia)). lia.
+    + apply Hne; [exact Heq | reflexivity].
+    + pose proof (mul_step x' x bits Hbn ltac:(lia)). lia.
+  - pose proof (mul_step y' y (stride * 8) HS ltac:(lia)). lia.
+Qed.
+
+Section Image.
+  Variables (w h stride bits : Z) (src : Z -> Z -> Z -> bool) (rowf : Z -> Z -> Z -> Z).
+  Hypothesis Hw : 0 < w < 4294967296.
+  Hypothesis Hh : 0 < h < 4294967296.
+  Hypothesis Hbits : legal_bits bits.
+  Hypothesis Hfit : w * bits <= stride * 8.
+  Hypothesis Hrow_bytes : forall p l lw, In (p, l, lw) (rows_model w h) -> img_bytes (rowf p l).
+  Hypothesis Hrow_src : forall p l lw lm lo sm so,
+    In (p, l, lw) (rows_model w h) -> assocz p expand_table = Some (lm, lo, sm, so) ->
+    forall i j, 0 <= i < lw -> 0 <= j < bits ->
+      get_bit (rowf p l) (i * bits + j) = src (i * sm + so) (lm * l + lo) j.
+
+  (* q lies in the field of some pixel of some row of [ord] *)
+  Definition in_row_field (ord : list (Z * Z * Z)) (q : Z) : Prop :=
+    exists p l lw lm lo sm so i,
+      In (p, l, lw) ord /\ assocz p expand_table = Some (lm, lo, sm, so) /\ 0 <= i < lw /\
+      (i * sm + so) * bits + (lm * l + lo) * stride * 8 <= q < (i * sm + so) * bits + (lm * l + lo) * stride * 8 + bits.
+
+  Lemma stride_nonneg : 0 <= stride.
+  Proof. pose proof (legal_bits_pos bits Hbits). nia. Qed.
+
+  Lemma expand_all_inv : forall ord,
+    NoDup ord -> (forall r, In r ord -> In r (rows_model w h)) ->
+    forall m, img_bytes m ->
+    exists m', expand_all m stride bits rowf ord = Some m' /\ img_bytes m' /\
+      (forall p l lw lm lo sm so, In (p, l, lw) ord -> assocz p expand_table = Some (lm, lo, sm, so) ->
+         forall i j, 0 <= i < lw -> 0 <= j < bits ->
+           get_bit m' ((i * sm + so) * bits + (lm * l + lo) * stride * 8 + j) = src (i * sm + so) (lm * l + lo) j) /\
+      (forall q, 0 <= q -> ~ in_row_field ord q -> get_bit m' q = get_bit m q).
+  Proof.
+    pose proof (legal_bits_pos bits Hbits) as Hbp.
+    pose proof stride_nonneg as Hst.
+    induction ord as [|r ord IH]; intros Hnd Hsub m Hm.
+    - exists m. cbn [expand_all]. split; [reflexivity|]. split; [exact Hm|].
+      split; [intros p l lw lm lo sm so Hin; destruct Hin | reflexivity].
+    - destruct r as [[p l] lw].
+      inversion Hnd as [|? ? Hnotin Hnd']; subst.
+      assert (Hr : In (p, l, lw) (rows_model w h)) by (apply Hsub; left; reflexivity).
+      assert (Hsub' : forall r, In r ord -> In r (rows_model w h)) by (intros r Hr'; apply Hsub; right; exact Hr').
+      destruct (rows_sound w h p l lw Hw Hh Hr) as (Hp & Hlw & Hl & lm & lo & sm & so & He & Hyh & Dx & _).
+      destruct (expand_row_correct m stride p l lw bits (rowf p l) lm lo sm so Hp Hl ltac:(lia) Hst Hm
+                  (Hrow_bytes p l lw Hr) Hbits He) as (m1 & Hrun & Ha & Hb & Hm1).
+      cbv beta zeta in Ha, Hb.
+      destruct (IH Hnd' Hsub' m1 Hm1) as (m' & Hall & Hm' & Hset & Hkeep).
+      exists m'. cbn [expand_all]. rewrite Hrun. split; [exact Hall|]. split; [exact Hm'|].
+      destruct (expand_total p Hp) as (lm0 & lo0 & sm0 & so0 & He0 & Hsm & Hlm & Hso & Hlo).
+      rewrite He in He0. inversion He0; subst lm0 lo0 sm0 so0. clear He0.
+      split.
+      + intros p2 l2 lw2 lm2 lo2 sm2 so2 Hin He2 i j Hi Hj.
+        destruct Hin as [Heq | Hin]; [| exact (Hset p2 l2 lw2 lm2 lo2 sm2 so2 Hin He2 i j Hi Hj)].
+        inversion Heq; subst p2 l2 lw2. rewrite He in He2. inversion He2; subst lm2 lo2 sm2 so2. clear Heq He2.
+        assert (Hx : 0 <= i * sm + so < w) by (split; [nia | apply Dx; lia]).
+        assert (Hy : 0 <= lm * l + lo) by nia.
+        rewrite Hkeep.
+        * rewrite (Ha i Hi j Hj). apply (Hrow_src p l lw lm lo sm so Hr He i j Hi Hj).
+        * nia.
+        * (* no other row touches this field *)
+          intros (p' & l' & lw' & lm' & lo' & sm' & so' & i' & Hin' & He' & Hi' & Hq').
+          pose proof (Hsub' _ Hin') as Hr'.
+          destruct (rows_sound w h p' l' lw' Hw Hh Hr') as (Hp' & Hlw' & Hl' & lm1 & lo1 & sm1 & so1 & He1 & _ & Dx' & _).
+          rewrite He' in He1. inversion He1; subst lm1 lo1 sm1 so1. clear He1.
+          destruct (expand_total p' Hp') as (lm1 & lo1 & sm1 & so1 & He1 & Hsm' & Hlm' & Hso' & Hlo').
+          rewrite He' in He1. inversion He1; subst lm1 lo1 sm1 so1. clear He1.
+          assert (Hx' : 0 <= i' * sm' + so' < w) by (split; [nia | apply Dx'; lia]).
+          assert (Hy' : 0 <= lm' * l' + lo') by nia.
+          apply (fields_disjoint w stride bits (i * sm + so) (lm * l + lo) (i' * sm' + so') (lm' * l' + lo')
+                   ((i * sm + so) * bits + (lm * l + lo) * stride * 8 + j) Hbp Hfit Hx Hx' Hy Hy'); [| lia | exact Hq'].
+          intros Ex Ey.
+          assert (P1 : pos_xy p l i = Some (i * sm + so, lm * l + lo)) by (unfold pos_xy; rewrite He; reflexivity).
+          assert (P2 : pos_xy p' l' i' = Some (i * sm + so, lm * l + lo)).
+          { unfold pos_xy. rewrite He'. rewrite Ex, Ey. reflexivity. }
+          destruct (rows_unique w h p l lw i p' l' lw' i' _ _ Hw Hh Hr Hr' Hi Hi' P1 P2) as (Ep & El & _ & Elw).
+          subst p' l' lw'. contradiction.
+      + intros q Hq Hout. rewrite Hkeep.
+        * apply Hb; [exact Hq|]. intros i Hi Hin. apply Hout.
+          exists p, l, lw, lm, lo, sm, so, i. split; [left; reflexivity|]. split; [exact He|]. split; [exact Hi | exact Hin].
+        * exact Hq.
+        * intros (p' & l' & lw' & lm' & lo' & sm' & so' & i' & Hin' & He' & Hi' & Hq'). apply Hout.
+          exists p', l', lw', lm', lo', sm', so', i'. split; [right; exact Hin'|]. split; [exact He'|]. split; [exact Hi' | exact Hq'].
+  Qed.
+
+  Theorem expand_image_correct m0 ord :
+    img_bytes m0 -> NoDup ord -> (forall r, In r ord <-> In r (rows_model w h)) ->
+    exists m', expand_all m0 stride bits rowf ord = Some m' /\
+      (forall x y j, 0 <= x < w -> 0 <= y < h -> 0 <= j < bits ->
+         get_bit m' (y * stride * 8 + x * bits + j) = src x y j) /\
+      (forall q, 0 <= q ->
+         (forall x y, 0 <= x < w -> 0 <= y < h -> ~ (y * stride * 8 + x * bits <= q < y * stride * 8 + x * bits + bits)) ->
+         get_bit m' q = get_bit m0 q).
+  Proof.
+    intros Hm0 Hnd Hord.
+    destruct (expand_all_inv ord Hnd (fun r Hr => proj1 (Hord r) Hr) m0 Hm0) as (m' & Hall & _ & Hset & Hkeep).
+    exists m'. split; [exact Hall|]. split.
+    - intros x y j Hx Hy Hj.
+      destruct (rows_complete w h x y Hw Hh Hx Hy) as (l & i & lw & lm & lo & sm & so & Hr & Hi & He & Ex & Ey).
+      apply Hord in Hr.
+      replace (y * stride * 8 + x * bits + j) with (x * bits + y * stride * 8 + j) by lia.
+      rewrite Ex, Ey. exact (Hset _ l lw lm lo sm so Hr He i j Hi Hj).
+    - intros q Hq Hout. apply Hkeep; [exact Hq|].
+      intros (p & l & lw & lm & lo & sm & so & i & Hin & He & Hi & Hqf).
+      apply Hord in Hin.
+      destruct (rows_sound w h p l lw Hw Hh Hin) as (Hp & Hlw & Hl & lm1 & lo1 & sm1 & so1 & He1 & Hyh & Dx & _).
+      rewrite He in He1. inversion He1; subst lm1 lo1 sm1 so1. clear He1.
+      destruct (expand_total p Hp) as (lm1 & lo1 & sm1 & so1 & He1 & Hsm & Hlm & Hso & Hlo).
+      rewrite He in He1. inversion He1; subst lm1 lo1 sm1 so1. clear He1.
+      assert (Hx : 0 <= i * sm + so < w) by (split; [nia | apply Dx; lia]).
+      assert (Hy : 0 <= lm * l + lo < h) by (split; [nia | exact Hyh]).
+      apply (Hout _ _ Hx Hy). lia.
+  Qed.
+End Image.
